@@ -56,7 +56,8 @@ double Random(void)
 
 	double ret = 0.0;
 	unsigned lzs = intrinsics_clz(u_val) + 1;
-	u_val <<= lzs;
+	u_val <<= lzs - 1; // lzs can be 64: shifting by it in one step would be undefined
+	u_val <<= 1;
 	u_val >>= 12;
 
 	uint64_t exp = 1023 - lzs;
